@@ -48,14 +48,14 @@ template void frg::destruct_n<wit::Elem, wit::Alloc>(wit::Alloc &, wit::Elem *, 
 
 template class frg::tuple<int, wit::Elem>;
 template class frg::tuple<int &, wit::Elem &>;
-template int &frg::tuple<int, wit::Elem>::get<0>();
-template wit::Elem &frg::tuple<int, wit::Elem>::get<1>();
-template const int &frg::tuple<int, wit::Elem>::get<0>() const;
-template const wit::Elem &frg::tuple<int, wit::Elem>::get<1>() const;
-template int &frg::tuple<int &, wit::Elem &>::get<0>();
-template wit::Elem &frg::tuple<int &, wit::Elem &>::get<1>();
 template class frg::tuple<int, wit::Elem, long>;
-template long &frg::tuple<int, wit::Elem, long>::get<2>();
+// get<> is instantiated by use (not by explicit instantiation, whose declared return type would have to match
+// the header's exactly: a changed return type must show up in the type-level witnesses, not as a broken unit).
+namespace wit { inline void use_tuple_get(frg::tuple<int, wit::Elem> &a, const frg::tuple<int, wit::Elem> &b,
+		frg::tuple<int &, wit::Elem &> &r, frg::tuple<int, wit::Elem, long> &t) {
+	(void)a.get<0>(); (void)a.get<1>(); (void)b.get<0>(); (void)b.get<1>();
+	(void)r.get<0>(); (void)r.get<1>(); (void)t.get<2>();
+} }
 namespace wit { inline void use_tuple(frg::tuple<int, char> a, frg::tuple<long> b) {
 	auto c = frg::tuple_cat(std::move(a), std::move(b));
 	(void)frg::apply([](int, char, long) { return 0; }, std::move(c));
